@@ -122,6 +122,43 @@ def misuse_matrix(ctx):
                 A.solve(display=False)
             return A.get()
         t(k + ' get() of an unbounded model', one(unbounded))
+    # results of a failed model cannot be read, whichever interface was used
+    from rsome import eco_solver, ort_solver, grb_solver
+    for k in ('ro', 'dro'):
+        for sname, solver in (('ecos', eco_solver), ('ortools', ort_solver), ('gurobi', grb_solver)):
+            for what in ('infeasible', 'unbounded'):
+                def failed_via(k=k, solver=solver, what=what):
+                    A, xa, za = mk(k)
+                    A.min(xa.sum())
+                    if what == 'infeasible':
+                        A.st(xa[0] >= 1, xa[0] <= -1, xa <= 5, xa >= -5)
+                    with C.quiet():
+                        A.solve(solver, display=False)
+                    return A.get()
+                t('%s get() of an %s model solved through %s' % (k, what, sname), failed_via)
+                def failed_x_via(k=k, solver=solver, what=what):
+                    A, xa, za = mk(k)
+                    A.min(xa.sum())
+                    if what == 'infeasible':
+                        A.st(xa[0] >= 1, xa[0] <= -1, xa <= 5, xa >= -5)
+                    with C.quiet():
+                        A.solve(solver, display=False)
+                    return xa.get()
+                t('%s x.get() of an %s model solved through %s' % (k, what, sname), failed_x_via)
+    # the stand-alone modelling layers (lp / socp / gcp Model objects used directly)
+    from rsome import lp as lpm, socp as socpm, gcp as gcpm
+    for lname, L in (('lp', lpm), ('socp', socpm), ('gcp', gcpm)):
+        def two(f, L=L):
+            def run():
+                A = L.Model(); xa = A.dvar(2); B = L.Model(); xb = B.dvar(2)
+                return f(A, xa, B, xb)
+            return run
+        t(lname + ' layer: st(foreign constraint)', two(lambda A, xa, B, xb: A.st(xb[0] + xb[1] <= 1)))
+        t(lname + ' layer: mixed expression x_A + x_B', two(lambda A, xa, B, xb: A.st(xa[0] + xb[0] <= 1)))
+        t(lname + ' layer: concat([x_A, x_B])', two(lambda A, xa, B, xb: A.st(rso.concat([xa, xb]) <= 1)))
+        t(lname + ' layer: rstack(x_A, x_B)', two(lambda A, xa, B, xb: A.st(rso.rstack(xa, xb) <= 1)))
+        t(lname + ' layer: objective of another model', two(lambda A, xa, B, xb: (A.min(xb.sum()), A.st(xa >= 0), A.solve(display=False), A.get())))
+
     def amb_after(A, xa, za):
         A.st(xa >= 0)
         return A.ambiguity()
@@ -204,7 +241,43 @@ def interleave(ctx, seed):
         ctx.count('interleave:identical')
 
 
+def params_do_not_leak(ctx, seed):
+    """solver parameters given to one model's solve() (Gurobi: params={...}) do not change a later solve of another model"""
+    from rsome import ro, grb_solver
+    r = np.random.default_rng(seed)
+    ctx.search_cases += 1; ctx.evaluations += 1
+    c = r.integers(1, 6, 3).astype(float); w = r.integers(2, 7, 3).astype(float); cap = float(w.sum() // 2)
+
+    def build_b():
+        m = ro.Model(); x = m.dvar(3, vtype='I')
+        m.max(c @ x); m.st(w @ x <= cap * 3, x >= 0, x <= 4)
+        return m
+    case = {"params_seed": seed}
+    try:
+        with C.quiet():
+            B0 = build_b(); B0.solve(grb_solver, display=False); ref = B0.get()
+            A = ro.Model(); xa = A.dvar(2); A.min(xa.sum()); A.st(xa >= 1, xa <= 3)
+            A.solve(grb_solver, display=False, params={'Cutoff': 2.5, 'SolutionLimit': 1, 'BestObjStop': 100.0})
+            B1 = build_b(); B1.solve(grb_solver, display=False)
+            try:
+                after = B1.get()
+            except RuntimeError:
+                after = None
+            try:
+                B0.solve(grb_solver, display=False); again = B0.get()
+            except RuntimeError:
+                again = None
+    except Exception as ex:
+        ctx.hit('solver-parameters-leak:raises:' + type(ex).__name__, {"error": str(ex)[:200]}, case); return
+    if after is None or again is None or abs(after - ref) > 1e-7 * (1 + abs(ref)) or abs(again - ref) > 1e-7 * (1 + abs(ref)):
+        ctx.hit('solver-parameters-leak', {"other_model_before": ref, "fresh_copy_after": after, "same_object_after": again}, case)
+    else:
+        ctx.count('params:no-leak')
+
+
 def run(ctx):
+    for k in range(ctx.n(3, 30)):
+        params_do_not_leak(ctx, int(ctx.rng.integers(2 ** 31)))
     misuse_matrix(ctx)
     for k in range(ctx.n(40, 800)):
         interleave(ctx, int(ctx.rng.integers(2 ** 31)))
